@@ -3596,6 +3596,9 @@ class ControlConnection(object):
     _schema_meta_enabled = True
     _token_meta_enabled = True
 
+    # host -> tokens the current token map was built from
+    _last_token_map_source = None
+
     _uses_peers_v2 = True
 
     # for testing purposes
@@ -3988,9 +3991,13 @@ class ControlConnection(object):
                 self._cluster.remove_host(old_host)
 
         log.debug("[control connection] Finished fetching ring info")
+        if token_map != self._last_token_map_source:
+            # token ownership moved although the set of hosts did not change
+            should_rebuild_token_map = True
         if partitioner and should_rebuild_token_map:
             log.debug("[control connection] Rebuilding token map due to topology changes")
             self._cluster.metadata.rebuild_token_map(partitioner, token_map)
+            self._last_token_map_source = token_map
 
     @staticmethod
     def _is_valid_peer(row):
